@@ -127,6 +127,7 @@ pub fn run(ctx: &Ctx) -> (Vec<Case>, String, bool, BTreeMap<String, String>) {
     all.extend(par_cases(ctx, "C20", "snd-malformed", n_snd_bad, |i, id| sound::one_case(ctx, i, id, "snd-malformed")));
     let n_small = ctx.tier.pick(400, 20_000);
     all.extend(par_cases(ctx, "C20", "rng", n_small, |i, id| small::rng_case(ctx, i, id)));
+    all.extend(par_cases(ctx, "C20", "rng-wrap", ctx.tier.pick(2, 6), |i, id| small::rng_wrap_case(ctx, i, id)));
     all.extend(par_cases(ctx, "C20", "rtc", n_small, |i, id| small::rtc_case(ctx, i, id)));
     all.extend(par_cases(ctx, "C20", "p9", n_small, |i, id| small::p9_case(ctx, i, id)));
     virtio_drivers::verif_hooks::set_spin_hook(None);
